@@ -19,7 +19,7 @@ def Ast.isBinder : Ast → Bool
 
 /-- an operand: `n` redundant pairs of parentheses, at least one pair when `need`ed; inside
 parentheses the operand is at the right edge (`inner true`) -/
-def wrap (n : Nat) (need : Bool) (inner : Bool → List Tok) (edge : Bool) : List Tok :=
+def wrapP (n : Nat) (need : Bool) (inner : Bool → List Tok) (edge : Bool) : List Tok :=
   if need || decide (0 < n) then parenN (max 1 n) (inner true) else inner edge
 
 /-- tokens of a tree; `edge` = nothing but a closing token (`)`, `,`, end) follows, so that a
@@ -32,20 +32,20 @@ def printO (ex : Ast → Nat) : Bool → Ast → List Tok
   | _, .num false d => [.at, .number d]
   | _, .num true d => [.at, .op .minus, .number d]
   | edge, .not e =>
-    .not :: wrap (ex e) (decide (e.lvl < notPrec) && !(edge && e.isBinder)) (fun b => printO ex b e) edge
+    .not :: wrapP (ex e) (decide (e.lvl < notPrec) && !(edge && e.isBinder)) (fun b => printO ex b e) edge
   | edge, .bin o l r =>
-    wrap (ex l) (decide (l.lvl < o.prec)) (fun b => printO ex b l) false ++
-      .op o :: wrap (ex r) (decide (r.lvl < o.prec + 1) && !(edge && r.isBinder)) (fun b => printO ex b r) edge
+    wrapP (ex l) (decide (l.lvl < o.prec)) (fun b => printO ex b l) false ++
+      .op o :: wrapP (ex r) (decide (r.lvl < o.prec + 1) && !(edge && r.isBinder)) (fun b => printO ex b r) edge
   | _, .ite a b c =>
-    .ite :: .lparen :: (wrap (ex a) false (fun e => printO ex e a) true ++ .comma ::
-      (wrap (ex b) false (fun e => printO ex e b) true ++ .comma ::
-        (wrap (ex c) false (fun e => printO ex e c) true ++ [.rparen])))
+    .ite :: .lparen :: (wrapP (ex a) false (fun e => printO ex e a) true ++ .comma ::
+      (wrapP (ex b) false (fun e => printO ex e b) true ++ .comma ::
+        (wrapP (ex c) false (fun e => printO ex e c) true ++ [.rparen])))
   | edge, .quant fa ns e =>
-    (if fa then .forall_ else .exists_) :: (printNames ns ++ wrap (ex e) false (fun b => printO ex b e) edge)
-  | edge, .subst ss e => .rename :: (printSubs ss ++ wrap (ex e) false (fun b => printO ex b e) edge)
+    (if fa then .forall_ else .exists_) :: (printNames ns ++ wrapP (ex e) false (fun b => printO ex b e) edge)
+  | edge, .subst ss e => .rename :: (printSubs ss ++ wrapP (ex e) false (fun b => printO ex b e) edge)
 
 /-- a whole formula -/
-def printTop (ex : Ast → Nat) (t : Ast) : List Tok := wrap (ex t) false (fun b => printO ex b t) true
+def printTop (ex : Ast → Nat) (t : Ast) : List Tok := wrapP (ex t) false (fun b => printO ex b t) true
 
 /-- reading the unparenthesised `t` at level `p`, then whatever follows, is continuing the
 operator loop with `t`; at the edge no operator follows at all -/
@@ -90,14 +90,14 @@ theorem specO_parenN {ex : Ast → Nat} {t : Ast} (h : SpecO ex t) :
     apply hk
     simp at hf ⊢; omega
 
-theorem specO_wrap {ex : Ast → Nat} {t : Ast} (h : SpecO ex t) (n : Nat) (need edge : Bool)
+theorem specO_wrapP {ex : Ast → Nat} {t : Ast} (h : SpecO ex t) (n : Nat) (need edge : Bool)
     (p f : Nat) (rest : List Tok) (res : PRes (Ast × List Tok))
     (hb : need = false → n = 0 → fitsP p t ∧ stops (if edge then 1 else t.lvl + 1) rest)
-    (hf : (wrap n need (fun b => printO ex b t) edge ++ rest).length < f)
+    (hf : (wrapP n need (fun b => printO ex b t) edge ++ rest).length < f)
     (hfol : followOk rest = true)
     (hk : ∀ f', rest.length < f' → parseLoop f' p t rest = res) :
-    parseExpr f p (wrap n need (fun b => printO ex b t) edge ++ rest) = res := by
-  unfold wrap at hf ⊢
+    parseExpr f p (wrapP n need (fun b => printO ex b t) edge ++ rest) = res := by
+  unfold wrapP at hf ⊢
   split
   · rename_i hc
     rw [if_pos hc] at hf
@@ -159,9 +159,9 @@ theorem specO (ex : Ast → Nat) : ∀ t : Ast, t.WF → SpecO ex t := by
     simp only [printO, List.cons_append] at hf ⊢
     rw [parseExpr_eq, prefix_not]
     have hin : parseExpr f0 notPrec
-        (wrap (ex e) (decide (e.lvl < notPrec) && !(edge && e.isBinder)) (fun b => printO ex b e) edge ++ rest) =
+        (wrapP (ex e) (decide (e.lvl < notPrec) && !(edge && e.isBinder)) (fun b => printO ex b e) edge ++ rest) =
         .ok (e, rest) := by
-      apply specO_wrap (ih hwf) _ _ edge notPrec f0 rest
+      apply specO_wrapP (ih hwf) _ _ edge notPrec f0 rest
       · intro hb _
         simp only [Bool.and_eq_false_iff, decide_eq_false_iff_not, Nat.not_lt, Bool.not_eq_false',
           Bool.and_eq_true] at hb
@@ -192,7 +192,7 @@ theorem specO (ex : Ast → Nat) : ∀ t : Ast, t.WF → SpecO ex t := by
     have hst' : stops (o.prec + 1) rest := by
       have := stops_edge (l := o.prec) hst
       simpa [Ast.lvl] using this
-    apply specO_wrap (ihl hwl) _ _ false p f _ res
+    apply specO_wrapP (ihl hwl) _ _ false p f _ res
     · intro hb _
       simp at hb
       refine ⟨?_, ?_⟩
@@ -206,9 +206,9 @@ theorem specO (ex : Ast → Nat) : ∀ t : Ast, t.WF → SpecO ex t := by
       obtain ⟨f0, rfl⟩ := fuel_succ hf'
       rw [loop_op, if_pos hfit]
       have hin : parseExpr f0 (o.prec + 1)
-          (wrap (ex r) (decide (r.lvl < o.prec + 1) && !(edge && r.isBinder)) (fun b => printO ex b r) edge ++ rest) =
+          (wrapP (ex r) (decide (r.lvl < o.prec + 1) && !(edge && r.isBinder)) (fun b => printO ex b r) edge ++ rest) =
           .ok (r, rest) := by
-        apply specO_wrap (ihr hwr) _ _ edge (o.prec + 1) f0 rest
+        apply specO_wrapP (ihr hwr) _ _ edge (o.prec + 1) f0 rest
         · intro hb _
           simp only [Bool.and_eq_false_iff, decide_eq_false_iff_not, Nat.not_lt, Bool.not_eq_false',
             Bool.and_eq_true] at hb
@@ -235,27 +235,27 @@ theorem specO (ex : Ast → Nat) : ∀ t : Ast, t.WF → SpecO ex t := by
     obtain ⟨f0, rfl⟩ := fuel_succ hf
     simp only [printO, List.append_assoc, List.cons_append, List.nil_append] at hf ⊢
     rw [parseExpr_eq, prefix_ite]
-    have ha : parseExpr f0 0 (wrap (ex a) false (fun e => printO ex e a) true ++ .comma ::
-        (wrap (ex b) false (fun e => printO ex e b) true ++
-        .comma :: (wrap (ex c) false (fun e => printO ex e c) true ++ .rparen :: rest))) =
-        .ok (a, .comma :: (wrap (ex b) false (fun e => printO ex e b) true ++
-        .comma :: (wrap (ex c) false (fun e => printO ex e c) true ++ .rparen :: rest))) := by
-      apply specO_wrap (iha hwa) _ _ true 0 f0
+    have ha : parseExpr f0 0 (wrapP (ex a) false (fun e => printO ex e a) true ++ .comma ::
+        (wrapP (ex b) false (fun e => printO ex e b) true ++
+        .comma :: (wrapP (ex c) false (fun e => printO ex e c) true ++ .rparen :: rest))) =
+        .ok (a, .comma :: (wrapP (ex b) false (fun e => printO ex e b) true ++
+        .comma :: (wrapP (ex c) false (fun e => printO ex e c) true ++ .rparen :: rest))) := by
+      apply specO_wrapP (iha hwa) _ _ true 0 f0
       · intro _ _; exact ⟨fitsP_zero a, trivial⟩
       · simp at hf ⊢; omega
       · rfl
       · exact loop_stops' _ _ _ trivial
-    have hb : parseExpr f0 0 (wrap (ex b) false (fun e => printO ex e b) true ++
-        .comma :: (wrap (ex c) false (fun e => printO ex e c) true ++ .rparen :: rest)) =
-        .ok (b, .comma :: (wrap (ex c) false (fun e => printO ex e c) true ++ .rparen :: rest)) := by
-      apply specO_wrap (ihb hwb) _ _ true 0 f0
+    have hb : parseExpr f0 0 (wrapP (ex b) false (fun e => printO ex e b) true ++
+        .comma :: (wrapP (ex c) false (fun e => printO ex e c) true ++ .rparen :: rest)) =
+        .ok (b, .comma :: (wrapP (ex c) false (fun e => printO ex e c) true ++ .rparen :: rest)) := by
+      apply specO_wrapP (ihb hwb) _ _ true 0 f0
       · intro _ _; exact ⟨fitsP_zero b, trivial⟩
       · simp at hf ⊢; omega
       · rfl
       · exact loop_stops' _ _ _ trivial
-    have hc : parseExpr f0 0 (wrap (ex c) false (fun e => printO ex e c) true ++ .rparen :: rest) =
+    have hc : parseExpr f0 0 (wrapP (ex c) false (fun e => printO ex e c) true ++ .rparen :: rest) =
         .ok (c, .rparen :: rest) := by
-      apply specO_wrap (ihc hwc) _ _ true 0 f0
+      apply specO_wrapP (ihc hwc) _ _ true 0 f0
       · intro _ _; exact ⟨fitsP_zero c, trivial⟩
       · simp at hf ⊢; omega
       · rfl
@@ -273,8 +273,8 @@ theorem specO (ex : Ast → Nat) : ∀ t : Ast, t.WF → SpecO ex t := by
     obtain ⟨f0, rfl⟩ := fuel_succ hf
     have hst1 : stops 1 rest := by cases edge <;> simpa [Ast.lvl] using hst
     have hstb : stops bodyPrec rest := by rw [bodyPrec_eq]; exact hst1
-    have hin : parseExpr f0 bodyPrec (wrap (ex e) false (fun b => printO ex b e) edge ++ rest) = .ok (e, rest) := by
-      apply specO_wrap (ih hwe) _ _ edge bodyPrec f0 rest
+    have hin : parseExpr f0 bodyPrec (wrapP (ex e) false (fun b => printO ex b e) edge ++ rest) = .ok (e, rest) := by
+      apply specO_wrapP (ih hwe) _ _ edge bodyPrec f0 rest
       · intro _ _
         refine ⟨?_, ?_⟩
         · cases e <;> simp [fitsP]
@@ -304,8 +304,8 @@ theorem specO (ex : Ast → Nat) : ∀ t : Ast, t.WF → SpecO ex t := by
     obtain ⟨f0, rfl⟩ := fuel_succ hf
     have hst1 : stops 1 rest := by cases edge <;> simpa [Ast.lvl] using hst
     have hstb : stops bodyPrec rest := by rw [bodyPrec_eq]; exact hst1
-    have hin : parseExpr f0 bodyPrec (wrap (ex e) false (fun b => printO ex b e) edge ++ rest) = .ok (e, rest) := by
-      apply specO_wrap (ih hwe) _ _ edge bodyPrec f0 rest
+    have hin : parseExpr f0 bodyPrec (wrapP (ex e) false (fun b => printO ex b e) edge ++ rest) = .ok (e, rest) := by
+      apply specO_wrapP (ih hwe) _ _ edge bodyPrec f0 rest
       · intro _ _
         refine ⟨?_, ?_⟩
         · cases e <;> simp [fitsP]
@@ -326,11 +326,11 @@ theorem specO (ex : Ast → Nat) : ∀ t : Ast, t.WF → SpecO ex t := by
 /-- printing with the required parentheses, any number of redundant ones, binders open at the
 right edge — then parsing — is the identity -/
 theorem parse_printTop (ex : Ast → Nat) (t : Ast) (h : t.WF) : parse (printTop ex t) = some t := by
-  have := specO_wrap (specO ex t h) (ex t) false true 0 ((printTop ex t).length + 1) [] (.ok (t, []))
+  have := specO_wrapP (specO ex t h) (ex t) false true 0 ((printTop ex t).length + 1) [] (.ok (t, []))
     (fun _ _ => ⟨fitsP_zero t, trivial⟩)
     (by simp [printTop]) rfl (loop_stops' _ _ _ trivial)
   simp only [List.append_nil] at this
   simp only [parse, parseE, printTop]
-  rw [show (wrap (ex t) false (fun b => printO ex b t) true).length + 1 = (printTop ex t).length + 1 from rfl, this]
+  rw [show (wrapP (ex t) false (fun b => printO ex b t) true).length + 1 = (printTop ex t).length + 1 from rfl, this]
 
 end DD
